@@ -266,7 +266,11 @@ def api_oracle(case, c06):
     blocks = c06.dec_blocks(case["spec"])
     fl = "text" if flav == "t" else "binary"
     fn = globals()["_api_" + sub]
-    msg = fn(rng, flav, blocks, c06) if sub != "badnames" else _api_badnames(case, flav)
+    try:
+        msg = fn(rng, flav, blocks, c06) if sub != "badnames" else _api_badnames(case, flav)
+    except Exception as e:  # noqa: BLE001
+        # an exception escaping here comes from the code under test (well-formed input): a verdict with its own key
+        msg = f"{sub}: the real code raised {type(e).__name__}: {e}"
     if isinstance(msg, tuple):
         return [msg]
     return [(f"C06/api/{fl}/{sub}", msg)] if msg else []
